@@ -26,6 +26,7 @@ type Obl struct {
 	Expect string   // "unsat" normally; "sat" for cover / canary obligations
 	Note   string
 	BV     bool
+	Quick  bool // use a short solver budget
 }
 
 // Eng runs the symbolic execution of one function.
